@@ -42,6 +42,7 @@ Inductive clause :=
 | ClNoDeepSleep                   (* sleep did not end with a valid deep-sleep command *)
 | ClSleepNotLast                  (* something was sent after the deep-sleep command *)
 | ClNoReset                       (* wake-up does not start with a hardware reset *)
+| ClNoResetPulse                  (* construction / wake-up contain no hardware reset at all *)
 | ClResetTiming                   (* zero-length reset pulse or settle time *)
 | ClRegisters (field : N)         (* controller registers after wake-up differ from construction *)
 | ClGeomReg (c : N)               (* resolution / full-window / driver-output register does not describe W x H *)
@@ -244,10 +245,11 @@ Definition chk_sleep (P : pspec) (es : list effect) : list clause :=
          then [ClSleepNotLast] else [ClNoDeepSleep]
   end.
 
+Definition has_reset (ic : list icall) : bool := existsb (fun i => match i with IReset _ _ => true | _ => false end) ic.
 Definition chk_wake_reset (ic : list icall) : list clause :=
   match ic with
   | IReset a b :: _ => if (0 <? a) && (0 <? b) then [] else [ClResetTiming]
-  | _ => [ClNoReset]
+  | _ => if has_reset ic then [ClNoReset] else [ClNoResetPulse]
   end.
 
 (** registers that define geometry, power and data path (waveforms excluded) *)
@@ -318,6 +320,7 @@ Fixpoint chk_reset_first (ic : list icall) : list clause :=
   match ic with
   | IReset _ _ :: _ => []
   | IWait _ :: r | IDelay _ _ :: r => chk_reset_first r
+  | [] => [ClNoResetPulse]
   | _ => [ClNoReset]
   end.
 
